@@ -60,13 +60,13 @@ def H(op, **kw):
 ALPHA_OBJ = [
     H("set", k="k1", v="a"), H("set", k="k1", v="e"), H("set", k="k2", v="e"),
     H("get", k="k1"), H("del", k="k1"), H("del", k="k2"), H("unload"), H("sync"),
-    H("dump"), H("close"), H("drop"),
+    H("dump"), H("close"), H("drop"), H("withop", k="k1"), H("withop", k="k2"), H("deepcopy"),
 ]
 ALPHA_WRITE = [
     H("set", k="k1", v="b"), H("set", k="k3", v="e"), H("update"), H("recipe"), H("dump"),
     H("get", k="k1"), H("del", k="k2"), H("setmeta", m="m1"), H("items"), H("close"), H("unload"), H("sync"),
 ]
-ALPHA_NONE = [H("create"), H("read"), H("edit")]
+ALPHA_NONE = [H("create"), H("read"), H("edit"), H("createbad", v="suffix"), H("createbad", v="cards")]
 
 
 def exhaustive_histories(length, alpha_obj=None, prefix=None, has=True):
@@ -82,6 +82,8 @@ def exhaustive_histories(length, alpha_obj=None, prefix=None, has=True):
         for a in alpha_obj if has else ALPHA_NONE:
             has2 = has
             if a["op"] == "drop":
+                has2 = False
+            elif a["op"] == "createbad":
                 has2 = False
             elif a["op"] in ("create", "read", "edit"):
                 has2 = True  # may fail; the driver skips calls that need an object
